@@ -71,6 +71,9 @@ func c13Corpus() []c13Entry {
 		{"macro", one(t("a"), mt.Macro{Name: "m2", Params: []string{"x"}, Body: []mt.Stmt{t("("), mt.P(mt.V("x")), t(")")}}, t("b"), mt.P(mt.MCall{Name: "m2", Args: []mt.Expr{mt.I(1)}}), t("c"))},
 		{"apply", one(t("a"), mt.Apply{Filter: "upper", Body: []mt.Stmt{t("shout")}}, t("b"))},
 		{"spaceless", one(t("a"), mt.Spaceless{Body: []mt.Stmt{t("<i>x</i>")}}, t("b"))},
+		// bodies that are nothing but tags once the dashes (or a hand) have removed the blanks around them
+		{"spaceless-value", one(t("a"), mt.Spaceless{Body: []mt.Stmt{t(" "), mt.P(mt.V("markup")), t(" ")}}, t("b"), mt.Spaceless{Body: []mt.Stmt{t("\n"), mt.If{Conds: []mt.Expr{yes}, Bodies: [][]mt.Stmt{{t(" "), mt.P(mt.V("markup")), t(" ")}}}, t("\n")}}, t("c"))},
+		{"apply-value", one(t("a"), mt.Apply{Filter: "upper", Body: []mt.Stmt{t(" "), mt.P(mt.V("markup")), t(" ")}}, t("b"))},
 		{"verbatim", one(t("a"), mt.Verbatim{Raw: "raw body"}, t("b"))},
 		{"extends", func() *mt.TmplSet {
 			s := one()()
@@ -83,7 +86,7 @@ func c13Corpus() []c13Entry {
 }
 
 func c13Ctx() map[string]mt.Val {
-	return map[string]mt.Val{"yes": true, "no": false, "s": "S", "xs": []mt.Val{int64(1), int64(0), int64(2)}, "none": []mt.Val{}}
+	return map[string]mt.Val{"markup": "<a> x </a> <b>y</b>  <i> </i>", "yes": true, "no": false, "s": "S", "xs": []mt.Val{int64(1), int64(0), int64(2)}, "none": []mt.Val{}}
 }
 
 const wsChars = " \t\r\n"
@@ -299,6 +302,14 @@ func (p *c13) Run(rec *core.Recorder, seed uint64, idx int, tier string) {
 			} else if k == 2*len(tags) {
 				mask = 1<<uint(d) - 1 // all
 			}
+		}
+		if strings.HasSuffix(e.name, "-value") {
+			// bodies whose text is blank only: kept as written (no padding) and every delimiter dashed, so that all of it goes
+			// whichever way "nearest non-whitespace text" is read; what remains of the body is its tags
+			ps = pr.Pieces(set.T["main"].Body)
+			tags = dashable(ps)
+			mask = 1<<uint(2*len(tags)) - 1
+			rec.Count("blank-only-bodies", 1)
 		}
 		if r.P(1, 10) {
 			// the second tokenizer: pad above 4096 bytes with a long non-blank text in front
